@@ -164,6 +164,24 @@ Proof.
       rewrite Eb. destruct (N.eqb_spec b' b); [lia|]. rewrite <- Eb. exact (IHr _ _ Hr Hin).
 Qed.
 
+(* ---------- the lower-bound seek ---------- *)
+(* the lower-bound seek returns the first key of the in-order traversal that is >= the bound *)
+Lemma find_app {A} (f : A -> bool) a b : find f (a ++ b) = match find f a with Some x => Some x | None => find f b end.
+Proof. induction a as [|x a IH]; [reflexivity|]. cbn. destruct (f x); [reflexivity|exact IH]. Qed.
+
+Lemma seek_ge_spec_both lo :
+  (forall t, seek_ge lo t = find (fun k => lex_leb lo k) (inorder t)) /\
+  (forall c, seek_ge_ch lo c = find (fun k => lex_leb lo k) (inorder_ch c)).
+Proof.
+  apply art_children_ind.
+  - intros k. cbn. destruct (lex_leb lo k); reflexivity.
+  - intros plen pfx ipl ch IH. cbn [seek_ge inorder]. rewrite find_app. destruct ipl as [k|]; cbn [find].
+    + destruct (lex_leb lo k); [reflexivity|exact IH].
+    + exact IH.
+  - reflexivity.
+  - intros b t IHt r IHr. cbn [seek_ge_ch inorder_ch]. rewrite find_app, IHt, IHr. reflexivity.
+Qed.
+
 (* ---------- bounded exhaustive check of insert (all insertion orders over an adversarial key universe) ---------- *)
 Definition build (ks : list key) : option art := fold_left (fun o k => insert_root k o) ks None.
 Definition model_keys (ks : list key) : list key := map fst (fold_left (fun m k => kupsert k tt m) ks []).
